@@ -54,7 +54,7 @@ def history(max_sessions=3, max_entries=4, aes=True, names=None):
     names = G.distinct_names(0, max_sessions * max_entries, G.rel_name(3, 10)) if names is None else names
     return st.tuples(st.lists(session(max_entries, aes), min_size=1, max_size=max_sessions), names,
                      st.sampled_from(G.HEADER_MODES if aes else ["raw", "encoded"]), st.sampled_from(["path", "bytesio", "file"]),
-                     st.one_of(st.none(), st.sampled_from(["pw", "pässwörd", ""]))).map(assign)
+                     st.one_of(st.none(), st.sampled_from(["pw", "pässwörd", ""] + G.PW_UNNORMALISED))).map(assign)
 
 
 def conflict_free(names):
